@@ -416,6 +416,8 @@ class Tx:
                 if isinstance(i, E) and i.e.is_Integer:
                     return b.items[int(i.e)]
                 raise Unsupported("tuple index")
+            if isinstance(i, T):
+                i = E(S("(" + ",".join(repr(x) for x in i.items) + ")"))
             if isinstance(b.e, sp.Symbol):
                 return E(self._sym(f"{b.e.name}[{sname(i.e)}]"))
             return E(sp.Function("index")(b.e, i.e))
@@ -450,7 +452,7 @@ class Tx:
             x, y = x.e, y.e
             if op is ast.Add:
                 if _is_str(x) or _is_str(y):
-                    return E(sp.Function("concat")(x, y))
+                    return E(_cat(x, y))
                 return E(x + y)
             if op is ast.Sub:
                 return E(x - y)
@@ -489,8 +491,9 @@ class Tx:
             if isinstance(v, ast.Constant):
                 parts.append(E(S(repr(v.value))))
             else:
-                parts.append(self.expr(v.value))
-        return lift(lambda *ps: E(sp.Function("fstr")(*[p.e for p in ps])), *parts)
+                inner = self.expr(v.value)
+                parts.append(lift(lambda q: q if _is_str(q.e) else E(sp.Function("str")(q.e)), inner))
+        return lift(lambda *ps: E(_cat(*[p.e for p in ps])), *parts)
 
     def x_Lambda(self, n):
         return E(S("lambda:" + norm(n)))
@@ -768,9 +771,40 @@ def _as_load(node):
     return n
 
 
+def _cat(*parts):
+    """String concatenation as one flat, ordered application: a + b + c, f"{a}{b}{c}" and
+    "".join-free variants all become cat(a, b, c); adjacent literals are fused."""
+    flat = []
+    for p in parts:
+        if isinstance(p, sp.core.function.AppliedUndef) and p.func.__name__ == "cat":
+            flat.extend(p.args)
+        else:
+            flat.append(p)
+    fused = []
+    for p in flat:
+        if fused and _is_lit(p) and _is_lit(fused[-1]):
+            fused[-1] = S(repr(_lit(fused[-1]) + _lit(p)))
+        else:
+            fused.append(p)
+    fused = [p for p in fused if not (_is_lit(p) and _lit(p) == "")]
+    if len(fused) == 1:
+        return fused[0]
+    return sp.Function("cat")(*fused)
+
+
+def _is_lit(e):
+    return isinstance(e, sp.Symbol) and e.name[:1] in "'\""
+
+
+def _lit(e):
+    import ast as _a
+
+    return _a.literal_eval(e.name)
+
+
 def _is_str(e):
     return isinstance(e, sp.Symbol) and e.name[:1] in "'\"" or (
-        isinstance(e, sp.Function) and e.func.__name__ in ("concat", "str", "fstr"))
+        isinstance(e, sp.core.function.AppliedUndef) and e.func.__name__ in ("cat", "str"))
 
 
 def _arith(e):
